@@ -104,11 +104,17 @@ def gen_cases(tier, seed):
                             else ("raw",)):
                     cases.append({"kind": "sharded", "strategy": strategy, "shard_enc": senc,
                                   "op": op, "encoding": enc})
+    # a scale spread over six shard files (one chunk each): the close of the scale writes
+    # them one after the other, and a failure in any of them must surface
+    for strategy in ("on disk", "in memory"):
+        for op in ("store+close", "rewrite+close"):
+            cases.append({"kind": "sharded", "strategy": strategy, "shard_enc": "raw",
+                          "op": op, "encoding": "raw", "minishard_bits": 0, "shard_bits": 3})
     rnd = random.Random(f"C18:{seed}")
     if tier == "thorough":
         # the same enumeration on other dataset geometries / payloads
         for k in range(30):
-            base = dict(rnd.choice(cases[:60]))
+            base = dict(rnd.choice(cases[:64]))
             base["variant"] = rnd.randrange(1, 2 ** 16)
             cases.append(base)
     # cases that start threads / child processes come last (the storage cases fork)
@@ -179,7 +185,8 @@ class Scenario:
                 self.model[("file", "mesh/blob")] = b"BLOB" * 50
         else:
             spec = {"@type": "neuroglancer_uint64_sharded_v1", "hash": "identity",
-                    "minishard_bits": 1, "shard_bits": 0, "preshift_bits": 0,
+                    "minishard_bits": case.get("minishard_bits", 1),
+                    "shard_bits": case.get("shard_bits", 0), "preshift_bits": 0,
                     "minishard_index_encoding": case["shard_enc"],
                     "data_encoding": case["shard_enc"]}
             self.info = _info(case, spec)
@@ -590,7 +597,13 @@ def run_storage(case):
                 full = after[rel]
                 n = len(full)
                 cuts = sorted({0, 1, 2, 9, 10, 11, 17, 18, n // 2, n - 9, n - 8, n - 1}
-                              | {r5.randrange(n + 1) for _ in range(8)})
+                              | {r5.randrange(n + 1) for _ in range(8)}
+                              # whole fractions of the file (one slab of a chunk, one
+                              # member of an index) and whole pages / blocks
+                              | {n // k for k in (3, 4, 5, 8, 16)}
+                              | {n - n // k for k in (3, 4, 8)}
+                              | {2 ** k for k in range(5, 21)}
+                              | {4096 * k for k in (3, 5, 6, 7)})
                 for cut in [c for c in cuts if 0 <= c < n]:
                     with open(os.path.join(sc.d, rel), "wb") as fh:
                         fh.write(full[:cut])
